@@ -785,3 +785,109 @@ def displaybpm_rule(ctx: Ctx) -> None:
     okb = mb is not None and ast.unparse(mb["x"]) == x
     ctx.expect("R-TABLE", f, "the BPM values are those of the chosen source's BPMS", okb, "", f"{src(bp[0].value) if bp else ''}", node=f.node)
     ctx.expect("R-TABLE", f, "five outcomes", len(rets) == 5, "", f"{len(rets)} returns", node=f.node)
+
+
+def coalesce_coherence(ctx: Ctx) -> None:
+    """The boundary a warp is compared with is the beat of the last WARP_END event: read live from the list, or a
+    cache that is assigned exactly when (and what) the list's last end is stored."""
+    p = ctx.p
+    f = p.func(f"{TE}._coalesce_warps")
+    cfg = ctx.cfg(f)
+    rets = [r for r in body_walk(f.node) if isinstance(r, ast.Return)]
+    r = one(rets, f"return of {f.fq}")
+    require(isinstance(r.value, (ast.List, ast.Tuple)) and len(r.value.elts) == 2 and all(isinstance(e, ast.Tuple) and isinstance(e.elts[0], ast.Name) for e in r.value.elts),
+            f"{f.fq}: return shape not recognised")
+    ends = r.value.elts[1].elts[0].id
+    loops = [l for l in for_loops(f) if ast.unparse(l.iter) == f"{f.param_names()[0]}.timing_data.warps"]
+    lp = one(loops, f"loop over the warps in {f.fq}")
+    cmps = [n for st in lp.body for n in walk_no_nested(st) if isinstance(n, ast.Compare) and len(n.ops) == 1 and isinstance(n.ops[0], ast.LtE) and ast.unparse(n.left).endswith(".beat")]
+    cmp_ = one(cmps, f"comparison 'warp.beat <= <last end>' in {f.fq}")
+    X = cmp_.comparators[0]
+    live = f"{ends}[-1].beat"
+    loc = locals_of(f)
+
+    def stores_on(node_id: int):
+        """(kind, beat expr text) for a store into the ends list at this CFG node."""
+        n = cfg.nodes[node_id]
+        out = []
+        if n.ast is None or n.kind not in ("stmt",):
+            return out
+        st = n.ast
+        for c in ast.walk(st):
+            if isinstance(c, ast.Call) and isinstance(c.func, ast.Attribute) and c.func.attr == "append" and isinstance(c.func.value, ast.Name) and c.func.value.id == ends and c.args \
+                    and isinstance(c.args[0], ast.Call):
+                kw = {k.arg: k.value for k in c.args[0].keywords}
+                if "beat" in kw:
+                    out.append(("store", ast.unparse(kw["beat"])))
+        if isinstance(st, ast.Assign) and isinstance(st.targets[0], ast.Subscript) and isinstance(st.targets[0].value, ast.Name) and st.targets[0].value.id == ends \
+                and isinstance(st.value, ast.Call):
+            kw = {k.arg: k.value for k in st.value.keywords}
+            if "beat" in kw:
+                out.append(("store", ast.unparse(kw["beat"])))
+        return out
+
+    if isinstance(X, ast.Name):
+        bs = loc.b.get(X.id, [])
+        inner = [b for b in bs if in_body(lp, b.node)]
+        if len(bs) == 1 and len(inner) == 1 and bs[0].kind == "assign" and ast.unparse(bs[0].value) == live \
+                and cfg.dominates(cfg_node_of(cfg, f, bs[0].node), cfg_node_of(cfg, f, cmp_)):
+            ctx.ok("R-SINGLE", f, "the compared boundary is read from the last WARP_END event in the same iteration", f"{X.id} = {live}", node=cmp_)
+        else:
+            # cache mode: enumerate the paths of one iteration
+            h = cfg.node_for(lp)
+            starts = [s for s, lab in cfg.succ[h] if lab == "iter"]
+            paths: List[List[int]] = []
+
+            def dfs(n, path):
+                if len(paths) > 2000:
+                    return
+                if n == h:
+                    paths.append(path)
+                    return
+                for s, lab in cfg.succ[n]:
+                    if lab == "exc" or s in path:
+                        continue
+                    dfs(s, path + [s])
+
+            for s in starts:
+                dfs(s, [s])
+            bad = None
+            for path in paths:
+                events = []
+                for n in path:
+                    events.extend(stores_on(n))
+                    st = cfg.nodes[n].ast
+                    if cfg.nodes[n].kind == "stmt" and isinstance(st, (ast.Assign, ast.AnnAssign)):
+                        tg = st.targets[0] if isinstance(st, ast.Assign) else st.target
+                        if isinstance(tg, ast.Name) and tg.id == X.id and st.value is not None:
+                            events.append(("cache", ast.unparse(st.value)))
+                last_store = [e for e in events if e[0] == "store"][-1:] or [None]
+                last_cache = [e for e in events if e[0] == "cache"][-1:] or [None]
+                ok_path = (last_store[0] is None and last_cache[0] is None) or (
+                    last_store[0] is not None and last_cache[0] is not None and last_store[0][1] == last_cache[0][1]
+                    and events.index(last_cache[0]) > max(i for i, e in enumerate(events) if e[0] == "store") - 0 or False)
+                if last_store[0] is not None and last_cache[0] is not None and last_store[0][1] == last_cache[0][1]:
+                    ok_path = True
+                if not ok_path:
+                    bad = (path, events)
+                    break
+            if bad is None:
+                ctx.ok("R-SINGLE", f, f"the cached boundary '{X.id}' is updated exactly when the last WARP_END event is stored", f"{len(paths)} iteration paths", node=cmp_)
+            else:
+                ctx.bad("R-SINGLE", f, "the compared boundary is the beat of the last WARP_END event",
+                        f"'{X.id}' is a cached copy of {live} that goes stale: on one iteration path the list's last end and the cache diverge ({bad[1]}); "
+                        f"a later warp is then compared with the wrong boundary (three overlapping / nested warps)", node=cmp_, path=cfg.describe_path(bad[0]))
+    else:
+        ctx.expect("R-SINGLE", f, "the compared boundary is read from the last WARP_END event", ast.unparse(X) == live, ast.unparse(X), f"compared with {ast.unparse(X)}", node=cmp_)
+    # the extension test uses the same boundary, and an extension overwrites the last end with the new end
+    gts = [n for st in lp.body for n in walk_no_nested(st) if isinstance(n, ast.Compare) and len(n.ops) == 1 and isinstance(n.ops[0], ast.Gt)]
+    okg = len(gts) == 1 and ast.unparse(gts[0].comparators[0]) == ast.unparse(X)
+    ctx.expect("R-SINGLE", f, "the extension test compares the new end with the same boundary", okg, "", "", node=lp)
+    if okg:
+        E = ast.unparse(gts[0].left)
+        sts = [n for st in lp.body for n in walk_no_nested(st) if isinstance(n, ast.Assign) and isinstance(n.targets[0], ast.Subscript) and ast.unparse(n.targets[0]) == f"{ends}[-1]"]
+        oke = len(sts) == 1 and isinstance(sts[0].value, ast.Call) and {k.arg: ast.unparse(k.value) for k in sts[0].value.keywords}.get("beat") == E
+        if oke:
+            fs = [(ast.unparse(a), pol) for a, pol in facts(ctx, f, sts[0])]
+            oke = (ast.unparse(gts[0]), True) in fs and (ast.unparse(cmp_), True) in fs
+        ctx.expect("R-SINGLE", f, "an overlapping warp that ends later extends the last segment to its end", oke, "", "", node=lp)
